@@ -1,5 +1,6 @@
 import Pyunicorn.Lemmas.Repr
 import Pyunicorn.Lemmas.ReprHist
+import Pyunicorn.Lemmas.ReprAttrs
 import Pyunicorn.Generated.ArithC05
 import Mathlib.Tactic.FieldSimp
 import Mathlib.Tactic.Ring
@@ -724,5 +725,363 @@ example : (spec 4 ⟨exA, exW, none, none⟩ exOps).w = [0, 1 / 2, 1, 4]
     ∧ (spec 4 ⟨exA, exW, none, none⟩ exOps).gvw = some [0, 1 / 2, 1, 4] := ⟨rfl, rfl⟩
 example : Reprs (ofGraph false 4 exA exW none) ⟨exA, exW, none, none⟩ :=
   constructed_reprs false 4 (by decide) exA ⟨by decide, fun _ => forall_lt_lt (by decide)⟩ exW rfl
+
+/-! ## Round 3: named link attributes (several at once), and `undirected_copy`, the
+`edge_list()` round trip and `permuted_copy(identity)` as statements of a history
+
+`NetA` (`Model/ReprAttrs.lean`) is the live object with the whole dictionary
+`graph.es.attributes()`; `AbsA` specifies a history on: directedness, relation, node
+weights, **one matrix per attribute name**, weights stored on the graph object. -/
+
+/-- the result of every constructor path (the canonical network of a simple graph,
+whose graph object the adjacency setter has just created) represents
+`(d, a, w, no attribute of any name, nothing stored on the graph)` -/
+theorem constructed_reprsA (d : Bool) (N : Nat) (hN : 2 ≤ N) (a : Nat → Nat → Bool)
+    (hs : Simple d N a) (w : List Rat) (hw : w.length = N) :
+    ReprsA (NetA.fresh (ofGraph d N a w none)) ⟨d, a, w, fun _ => none, none⟩ := by
+  unfold NetA.fresh
+  rw [ofGraph_eq_form d N a hs w none]
+  exact reprsA_form (good_graphEdges d N hN a w hw none (fun _ h => by cases h)) rfl
+    (fun i j hi hj => rel_graphEdges d N a hs i j hi hj) rfl rfl (fun a => attrOK_none_nil _ _ a)
+
+/-- an object representing `σ` shows `σ`: every field of the `Network` object is the one
+of the canonical network of `(σ.d, σ.a, σ.w)`; `link_attribute(name)` is, for **every
+name**, the specified matrix on the links and 0 elsewhere, and a name the
+specification does not know is not found (`find_link_attribute` is `False`, and
+`link_attribute` raises `KeyError` as soon as there is a link) -/
+theorem reprsA_observables {x : NetA} {σ : AbsA} (h : ReprsA x σ) :
+    x.core = { ofGraph σ.d x.core.N σ.a σ.w none with graph := x.core.graph, gvw := σ.gvw }
+    ∧ (∀ i j, i < x.core.N → j < x.core.N → rel σ.d x.core.graph i j = σ.a i j)
+    ∧ ∀ a, match σ.V a with
+        | none => findLinkAttrA x a = false ∧ (x.core.graph ≠ [] → linkAttrA x a = none)
+        | some V => ∃ f, linkAttrA x a = some f ∧
+            ∀ i j, i < x.core.N → j < x.core.N → f i j = if σ.a i j then V i j else 0 := by
+  have hR : Reprs x.core ⟨σ.a, σ.w, none, σ.gvw⟩ := ⟨h.coh, h.adj, h.w, h.gvw, h.noattr⟩
+  refine ⟨?_, ?_, ?_⟩
+  · have := hR.eq_ofGraph
+    rw [h.noattr, h.dir] at this
+    exact this
+  · intro i j hi hj; rw [← h.dir]; exact h.adj i j hi hj
+  · intro a
+    have ha := h.attr a
+    cases hV : σ.V a with
+    | none =>
+      rw [hV] at ha
+      have ha' : x.attrs.get a = none := ha
+      refine ⟨by simp [findLinkAttrA, ha'], ?_⟩
+      intro hne
+      rw [linkAttrA_eq, ha']
+      have : x.core.graph.isEmpty = false := by simpa using hne
+      simp [linkAttr, netOf, this]
+    | some V =>
+      rw [hV] at ha
+      obtain ⟨_, f, hf, hfV⟩ := ha
+      refine ⟨f, by rw [linkAttrA_eq]; exact hf, ?_⟩
+      intro i j hi hj
+      rw [hfV i j, h.adj i j hi hj]
+
+/-- **frame property of the attribute statements** (any object, no hypothesis): setting or
+deleting the attribute `b` changes nothing but `b` — every field of the object and
+`link_attribute(a)` for every other name `a` stay what they were -/
+theorem named_attr_frame (x : NetA) (b : String) (v : Nat → Nat → Rat) :
+    (setLinkAttrA x b v).core = x.core ∧ (delLinkAttrA x b).core = x.core
+    ∧ ∀ a, a ≠ b → linkAttrA (setLinkAttrA x b v) a = linkAttrA x a
+        ∧ linkAttrA (delLinkAttrA x b) a = linkAttrA x a
+        ∧ findLinkAttrA (setLinkAttrA x b v) a = findLinkAttrA x a
+        ∧ findLinkAttrA (delLinkAttrA x b) a = findLinkAttrA x a := by
+  refine ⟨setLinkAttrA_core x b v, rfl, ?_⟩
+  intro a hab
+  have hdel : (delLinkAttrA x b).attrs.get a = x.attrs.get a := by
+    show (x.attrs.del b).get a = _
+    rw [get_del, if_neg hab]
+  have hset : (setLinkAttrA x b v).attrs.get a = x.attrs.get a := by
+    unfold setLinkAttrA
+    split
+    · rfl
+    · show (x.attrs.put b _).get a = _
+      rw [get_put, if_neg hab]
+  refine ⟨?_, ?_, ?_, ?_⟩
+  · rw [linkAttrA_eq, linkAttrA_eq, setLinkAttrA_core, hset]
+  · rw [linkAttrA_eq, linkAttrA_eq, hdel]; rfl
+  · unfold findLinkAttrA; rw [hset]
+  · unfold findLinkAttrA; rw [hdel]
+
+/-- `link_attribute(b)` after `set_link_attribute(b, V)` is `V` on the links and 0
+elsewhere, for every name, whatever other attributes exist (any graph object; `V`
+symmetric when undirected, as documented) — also on a network without links, where the
+attribute is never created; afterwards `del_link_attribute(b)` makes `b` unknown -/
+theorem named_attr_get_set (x : NetA) (b : String) (V : Nat → Nat → Rat)
+    (hV : x.core.directed = false → ∀ i j, V j i = V i j) :
+    (∃ f, linkAttrA (setLinkAttrA x b V) b = some f ∧
+      ∀ i j, f i j = if rel x.core.directed x.core.graph i j then V i j else 0)
+    ∧ (x.core.graph ≠ [] → findLinkAttrA (setLinkAttrA x b V) b = true)
+    ∧ (x.core.graph = [] → setLinkAttrA x b V = x)
+    ∧ findLinkAttrA (delLinkAttrA (setLinkAttrA x b V) b) b = false := by
+  have hdel : findLinkAttrA (delLinkAttrA (setLinkAttrA x b V) b) b = false := by
+    unfold findLinkAttrA
+    show ((Attrs.del _ b).get b).isSome = false
+    rw [get_del, if_pos rfl]; rfl
+  by_cases hE : x.core.graph.isEmpty = true
+  · have hg0 : x.core.graph = [] := List.isEmpty_iff.1 hE
+    have hrun : setLinkAttrA x b V = x := by unfold setLinkAttrA; exact if_pos hE
+    refine ⟨?_, fun h => absurd hg0 h, fun _ => hrun, hdel⟩
+    rw [hrun, linkAttrA_eq, hg0]
+    obtain ⟨_, f, hf, hfV⟩ := attrOK_nil x.core.directed x.attrs b V
+    exact ⟨f, hf, hfV⟩
+  · have hrun : setLinkAttrA x b V
+        = { x with attrs := x.attrs.put b (x.core.graph.map fun e => V e.1 e.2) } := by
+      unfold setLinkAttrA; exact if_neg hE
+    obtain ⟨h1, f, hf, hfV⟩ := attrOK_put (d := x.core.directed) (g := x.core.graph) x.attrs b V hV
+    refine ⟨⟨f, ?_, hfV⟩, ?_, fun h0 => absurd (by rw [h0]; rfl) hE, hdel⟩
+    · rw [hrun, linkAttrA_eq]; exact hf
+    · intro hne
+      obtain ⟨vs, hvs⟩ := h1 hne
+      rw [hrun]
+      unfold findLinkAttrA
+      show (Attrs.get _ b).isSome = true
+      rw [hvs]; rfl
+
+/-- **one statement** of the extended statement set — weights, `set_link_attribute(name, V)`,
+`del_link_attribute(name)`, `adjacency = A`, `save`, `save` + `Load`, `copy()`,
+`FromIGraph(net.graph)`, **`undirected_copy()`**, **`Network(edge_list=net.edge_list(), …)`**,
+**`permuted_copy(identity)`** — on an object representing `σ` succeeds and leaves an object
+representing `specStepA σ` (all attribute names at once; directedness as specified) -/
+theorem named_statement_spec (store : IGraphA → IGraphA) (hstore : ∀ g, store g = g) (x : NetA)
+    (σ : AbsA) (h : ReprsA x σ) (op : OpA) (hv : ValidOpA x.core.directed x.core.N op) :
+    ∃ x', stepA store x op = .ok x' ∧ ReprsA x' (specStepA x.core.N σ op)
+      ∧ x'.core.N = x.core.N ∧ x'.core.directed = dirAfter x.core.directed op :=
+  stepA_reprs store hstore x σ h op hv
+
+/-- **every history** over the extended statement set, of any length and order, with any
+number of attribute names in play, ends in an object representing the specified state -/
+theorem named_history_spec (store : IGraphA → IGraphA) (hstore : ∀ g, store g = g) (x : NetA)
+    (σ : AbsA) (h : ReprsA x σ) (ops : List OpA) (hv : ValidRun x.core.N x.core.directed ops) :
+    ∃ x', runA store x ops = .ok x' ∧ ReprsA x' (specA x.core.N σ ops) ∧ x'.core.N = x.core.N :=
+  runA_reprs store hstore ops x σ h hv
+
+/-- `copy()` carries **all** link attributes, each under its name (the loop over
+`graph.es.attributes()`), together with relation, weights, total, mean, `sp_A`, link
+count and density; the copy's graph object is fresh (nothing stored on it) -/
+theorem copy_all_attributes (x : NetA) (σ : AbsA) (h : ReprsA x σ) :
+    ∃ x', copyA x = .ok x' ∧ ReprsA x' { σ with gvw := none } ∧ x'.core.N = x.core.N := by
+  obtain ⟨x', h1, h2, h3, _⟩ := stepA_reprs id (fun _ => rfl) x σ h .copy trivial
+  exact ⟨x', h1, h2, h3⟩
+
+/-- `undirected_copy()`, the `edge_list()` round trip and `permuted_copy(identity)` of any
+object representing `σ`: the undirected closure resp. the same relation, the same weights
+(hence total and mean), no link attribute, a fresh graph object -/
+theorem derived_constructors (x : NetA) (σ : AbsA) (h : ReprsA x σ) :
+    (∃ x', undirectedCopyA x = .ok x' ∧ ReprsA x'
+        ⟨false, fun i j => σ.a i j || σ.a j i, σ.w, fun _ => none, none⟩)
+    ∧ (∃ x', edgeListCopyA x = .ok x' ∧ ReprsA x' { σ with V := fun _ => none, gvw := none })
+    ∧ (∃ x', permutedCopyIdA x = .ok x' ∧ ReprsA x' { σ with V := fun _ => none, gvw := none }) := by
+  obtain ⟨x1, h1, r1, _⟩ := stepA_reprs id (fun _ => rfl) x σ h .ucopy trivial
+  obtain ⟨x2, h2, r2, _⟩ := stepA_reprs id (fun _ => rfl) x σ h .edgelist trivial
+  obtain ⟨x3, h3, r3, _⟩ := stepA_reprs id (fun _ => rfl) x σ h .pcopy trivial
+  exact ⟨⟨x1, h1, r1⟩, ⟨x2, h2, r2⟩, ⟨x3, h3, r3⟩⟩
+
+/-- **a file format that renames attributes** (GML: igraph's writer removes underscores;
+`ren` is any renaming that does not keep `node_weight_nsi`): `save` + `Load` returns the
+same graph with **unit weights** and nothing found under `node_weight_nsi`; a link
+attribute whose name is kept and not clashed with comes back cell for cell; a name that
+is renamed away is not found any more.  (This is known findings C05-K2 / K2b / K3 as a
+statement about the code: the loss is exactly the renaming.) -/
+theorem gml_reload_named (ren : String → String)
+    (hren : ren "node_weight_nsi" ≠ "node_weight_nsi") (x : NetA) (σ : AbsA) (h : ReprsA x σ) :
+    ∃ x', stepA (gmlStoreA ren) x .reload = .ok x'
+      ∧ ReprsA ⟨x'.core, []⟩
+          { σ with w := List.replicate x.core.N 1, gvw := none, V := fun _ => none }
+      ∧ (∀ a, ren a = a → (∀ p ∈ x.attrs, ren p.1 = a → p.1 = a) →
+          linkAttrA x' a = linkAttrA x a)
+      ∧ (∀ a, (∀ p ∈ x.attrs, ren p.1 ≠ a) → findLinkAttrA x' a = false) := by
+  obtain ⟨core, as⟩ := x
+  obtain ⟨hc, hna, hdir, hadj, hw, hgvw, hattr⟩ := h
+  have hc' : Coherent core := hc
+  obtain ⟨d, N, g, ea, vw, w, rfl, hg⟩ := hc'.exists_form
+  have hea : ea = none := hna
+  subst hea
+  have hwl : (List.replicate N (1 : Rat)).length = N := by simp
+  have hgood : Good d N g none none (List.replicate N 1) :=
+    ⟨hg.size, hg.simple, hg.noloop, hg.range, hwl, hg.alen, fun _ h => by cases h⟩
+  have hvw : (ren "node_weight_nsi" == "node_weight_nsi") = false := by simpa using hren
+  by_cases hE : g.isEmpty = true
+  · have hg0 : g = [] := List.isEmpty_iff.1 hE
+    refine ⟨⟨form d N g none none (List.replicate N 1), []⟩, ?_,
+      reprsA_form hgood hdir hadj rfl rfl (fun a => attrOK_none_nil _ _ a), ?_, ?_⟩
+    · show fromIGraphA (gmlStoreA ren (saveA ⟨form d N g none vw w, as⟩).2) = _
+      unfold gmlStoreA
+      have hE2 : (saveA ⟨form d N g none vw w, as⟩).2.g.edges.isEmpty = true := hE
+      simp only [hvw, hE2, if_true]
+      show Except.map _ (fromIGraph ⟨N, d, g, none, none⟩) = _
+      rw [fromIGraph_form hg none (fun _ h => by cases h)]
+      rfl
+    · intro a _ _
+      rw [linkAttrA_eq, linkAttrA_eq]
+      show linkAttr (netOf d g _) = linkAttr (netOf d g _)
+      rw [hg0]
+      simp [linkAttr, netOf]
+    · intro a _; rfl
+  refine ⟨⟨form d N g none none (List.replicate N 1), as.map fun p => (ren p.1, p.2)⟩, ?_,
+    reprsA_form hgood hdir hadj rfl rfl (fun a => attrOK_none_nil _ _ a), ?_, ?_⟩
+  · show fromIGraphA (gmlStoreA ren (saveA ⟨form d N g none vw w, as⟩).2) = _
+    unfold gmlStoreA
+    have hE2 : ¬ (saveA ⟨form d N g none vw w, as⟩).2.g.edges.isEmpty = true := hE
+    simp only [hvw, hE2]
+    show Except.map _ (fromIGraph ⟨N, d, g, none, none⟩) = _
+    rw [fromIGraph_form hg none (fun _ h => by cases h)]
+    rfl
+  · intro a ha hinj
+    rw [linkAttrA_eq, linkAttrA_eq]
+    show linkAttr (netOf d g (Attrs.get (as.map fun p => (ren p.1, p.2)) a)) = _
+    rw [get_map_ren as ren a ha hinj]
+    rfl
+  · intro a hno
+    unfold findLinkAttrA
+    show (Attrs.get (as.map fun p => (ren p.1, p.2)) a).isSome = false
+    rw [get_map_ren_none as ren a hno]; rfl
+
+/-! ## Round 3: subclasses whose constructors derive the adjacency matrix
+
+`ClimateNetwork`, `CoupledClimateNetwork`, `RecurrenceNetwork` and `ResNetwork` compute a
+0/1 matrix and hand it to `GeoNetwork.__init__` / `Network.__init__`, i.e. to the same
+adjacency setter and node-weight setter.  The result is the canonical network of the
+relation the documented rule describes — so `canonical_*`, `n_links_*`, `link_density_*`
+and `constructed_reprsA` (hence every history theorem) apply to these objects. -/
+
+private theorem thresholdMat_eq (sim : Nat → Nat → Rat) (thr : Rat) :
+    thresholdMat sim thr = ind fun i j => i != j && decide (thr < ratAbs (sim i j)) := by
+  funext i j
+  unfold thresholdMat ind
+  by_cases h : i = j
+  · simp [h]
+  · by_cases h2 : thr < ratAbs (sim i j) <;> simp [h, h2]
+
+/-- **`ClimateNetwork(grid, similarity, threshold)`** (and `set_threshold` on a live object):
+nodes `i ≠ j` are linked iff `|similarity[i, j]| > threshold` (strictly); weights are those of
+the `node_weight_type`; for a symmetric similarity matrix — or a directed network — this is
+a simple graph (symmetric adjacency with empty diagonal) -/
+theorem climate_path (d : Bool) (N : Nat) (hN : 2 ≤ N) (sim : Nat → Nat → Rat) (thr : Rat)
+    (cl : List Rat) (hcl : cl.length = N) (t : Nat) :
+    climateInit d N sim thr cl t
+      = .ok (ofGraph d N (fun i j => i != j && decide (thr < ratAbs (sim i j)))
+          (weightsOf N (geoWeights cl t)) none)
+    ∧ ((d = false → ∀ i j, sim i j = sim j i) →
+        Simple d N fun i j => i != j && decide (thr < ratAbs (sim i j))) := by
+  refine ⟨?_, fun hsym => ⟨fun i _ => by simp, fun hd i j _ _ => ?_⟩⟩
+  · unfold climateInit
+    rw [thresholdMat_eq]
+    exact geo_path d N hN _ cl hcl t
+  · rw [hsym hd i j]
+    by_cases h : i = j
+    · subst h; rfl
+    · rw [bne_comm]
+
+private theorem geoWeights_length (cl : List Rat) (N : Nat) (hcl : cl.length = N) (t : Nat) :
+    (weightsOf N (geoWeights cl t)).length = N := by
+  unfold geoWeights
+  by_cases h1 : (t == 1) = true
+  · simp [h1, weightsOf, hcl]
+  · by_cases h2 : (t == 2) = true
+    · simp [h1, h2, weightsOf, hcl]
+    · simp [h1, h2, weightsOf]
+
+private theorem ratAbs_sub_comm (a b : Rat) : ratAbs (a - b) = ratAbs (b - a) := by
+  unfold ratAbs
+  split_ifs <;> linarith
+
+/-- **`CoupledClimateNetwork`**: running `Network.__init__` once more on the adjacency and
+the weights of the `ClimateNetwork` just built changes nothing -/
+theorem coupled_path (d : Bool) (N : Nat) (hN : 2 ≤ N) (sim : Nat → Nat → Rat) (thr : Rat)
+    (cl : List Rat) (hcl : cl.length = N) (t : Nat) :
+    coupledInit d N sim thr cl t = climateInit d N sim thr cl t := by
+  unfold coupledInit
+  rw [(climate_path d N hN sim thr cl hcl t).1]
+  show init d (.sparse (ofGraph d N _ _ none).sparse) (some (weightsOf N (geoWeights cl t))) = _
+  rw [sparse_ofGraph, init_dense d N hN _ _ (geoWeights_length cl N hcl t)]
+
+/-- **`RecurrenceNetwork(x, threshold=ε, node_weights=w)`** of a scalar series (and
+`set_fixed_threshold(ε)`, then with unit weights): states `i ≠ j` are linked iff
+`|x_i − x_j| < ε`; always an undirected simple graph -/
+theorem recurrence_path (x : List Rat) (hN : 2 ≤ x.length) (eps : Rat) (w : Option (List Rat))
+    (hw : ∀ v, w = some v → v.length = x.length) :
+    recurrenceInit x eps w
+      = .ok (ofGraph false x.length
+          (fun i j => i != j && decide (ratAbs (x.getD i 0 - x.getD j 0) < eps))
+          (weightsOf x.length w) none)
+    ∧ Simple false x.length
+        fun i j => i != j && decide (ratAbs (x.getD i 0 - x.getD j 0) < eps) := by
+  have hm : recurrenceMat x eps
+      = ind fun i j => i != j && decide (ratAbs (x.getD i 0 - x.getD j 0) < eps) := by
+    funext i j
+    unfold recurrenceMat ind
+    by_cases h : i = j
+    · simp [h]
+    · by_cases h2 : ratAbs (x.getD i 0 - x.getD j 0) < eps <;> simp [h, h2]
+  refine ⟨?_, ⟨fun i _ => by simp, fun _ i j _ _ => ?_⟩⟩
+  · unfold recurrenceInit
+    rw [hm]
+    cases w with
+    | none => exact init_dense_none false _ hN _
+    | some v => exact init_dense false _ hN _ v (hw v rfl)
+  · have hab := ratAbs_sub_comm (x.getD i 0) (x.getD j 0)
+    rw [hab, bne_comm]
+
+/-- **`ResNetwork(resistances)`** without an explicit adjacency: `i` and `j` are linked iff
+`resistances[i, j] ≠ 0`; a simple graph when the resistance matrix is symmetric with zero
+diagonal -/
+theorem res_path (N : Nat) (hN : 2 ≤ N) (R : Nat → Nat → Rat) (cl : List Rat)
+    (hcl : cl.length = N) (t : Nat) :
+    resInit N R cl t
+      = .ok (ofGraph false N (fun i j => R i j != 0) (weightsOf N (geoWeights cl t)) none)
+    ∧ ((∀ i, R i i = 0) → (∀ i j, R i j = R j i) → Simple false N fun i j => R i j != 0) := by
+  have hm : resMat R = ind fun i j => R i j != 0 := by
+    funext i j
+    unfold resMat ind
+    rfl
+  refine ⟨?_, fun h0 hs => ⟨fun i _ => by simp [h0 i], fun _ i j _ _ => by rw [hs i j]⟩⟩
+  unfold resInit
+  rw [hm]
+  exact geo_path false N hN _ cl hcl t
+
+
+/-! non-vacuity, round 3 -/
+
+/-- two attributes at once on the path-plus-isolated-node network; an undirected copy in the
+middle of a history; the hypotheses of `named_history_spec` hold and the specified final
+state has lost the attributes at `undirected_copy()` and carries the last weights -/
+def exOpsA : List OpA :=
+  [.setAttr "link_weights" (fun i j => (i + j : Nat)), .setAttr "corr" (fun i j => (i * j : Nat)),
+   .save, .copy, .delAttr "corr", .reload, .ucopy, .setW (some [0, 1 / 2, 1, 4]), .edgelist, .pcopy]
+example : ValidRun 4 false exOpsA := by
+  refine ⟨fun _ i j => by simp [Nat.add_comm], fun _ i j => by simp [Nat.mul_comm], trivial,
+    trivial, trivial, trivial, trivial, rfl, trivial, trivial, trivial⟩
+example : (specA 4 ⟨false, exA, exW, fun _ => none, none⟩ exOpsA).w = [0, 1 / 2, 1, 4] := rfl
+example : ((specA 4 ⟨false, exA, exW, fun _ => none, none⟩ (exOpsA.take 6)).V "link_weights").isSome
+    ∧ ((specA 4 ⟨false, exA, exW, fun _ => none, none⟩ (exOpsA.take 6)).V "corr").isNone := by
+  constructor <;> decide
+example : ReprsA (NetA.fresh (ofGraph false 4 exA exW none)) ⟨false, exA, exW, fun _ => none, none⟩ :=
+  constructed_reprsA false 4 (by decide) exA ⟨by decide, fun _ => forall_lt_lt (by decide)⟩ exW rfl
+/-- a directed history with `undirected_copy()`: symmetry of the attribute matrix is demanded
+only after it -/
+example : ValidRun 4 true [.setAttr "a_b" (fun i _ => (i : Nat)), .ucopy,
+    .setAttr "a_b" (fun i j => (i + j : Nat))] :=
+  by
+  refine ⟨?_, trivial, ?_, trivial⟩
+  · intro h; cases h
+  · intro _ i j; simp [Nat.add_comm]
+/-- a similarity matrix with mixed signs, thresholded at 1/2: nodes 0-1 are linked (|-3/4| > 1/2),
+0-2 not (1/2 is not above 1/2) -/
+example : thresholdMat (fun i j => if i + j == 1 then -3 / 4 else if i + j == 2 then 1 / 2 else 1)
+      (1 / 2) 0 1 = 1
+    ∧ thresholdMat (fun i j => if i + j == 1 then -3 / 4 else if i + j == 2 then 1 / 2 else 1)
+      (1 / 2) 0 2 = 0 := by
+  constructor <;> norm_num [thresholdMat, ratAbs]
+example : recurrenceMat [0, 1, 3] (3 / 2) 0 1 = 1 ∧ recurrenceMat [0, 1, 3] (3 / 2) 1 2 = 0 := by
+  constructor <;> norm_num [recurrenceMat, ratAbs]
+/-- igraph's GML renaming satisfies the hypotheses of `gml_reload_named`: the weight
+attribute is renamed, `corr` is kept, `link_weights` is renamed away -/
+example : stripUnderscores "node_weight_nsi" ≠ "node_weight_nsi"
+    ∧ stripUnderscores "corr" = "corr" ∧ stripUnderscores "link_weights" = "linkweights" := by
+  decide
 
 end Pyunicorn.Repr
